@@ -27,38 +27,82 @@ RemarkM(toks) ==
 AceM(plat, vmajor, toks) == LET a == ParseAce(plat, vmajor, toks) IN IF a.ok THEN <<"ace", Meaning(a), a.seq, a.logs, a.typ>> ELSE BadM
 IsRemarkLine(toks) == (Len(toks) >= 1 /\ IsW(toks[1], "remark")) \/ (Len(toks) >= 2 /\ toks[1].t = "n" /\ IsW(toks[2], "remark"))
 
-PartM(e, p) ==
-  CASE p.kind = "Port" -> LET r == ParsePort(PortTable(e.plat, e.vmajor, e.proto), MaxEq(e.plat), p.toks)
+PartMP(plat, e, p) ==
+  CASE p.kind = "Port" -> LET r == ParsePort(PortTable(plat, e.vmajor, e.proto), MaxEq(plat), p.toks)
                           IN IF p.toks = <<>> THEN <<"port", <<"none">>>> ELSE IF r.ok /\ r.n = Len(p.toks) /\ r.n > 0 THEN <<"port", PortDen(r.pe)>> ELSE BadM
     [] p.kind = "Protocol" -> IF Len(p.toks) = 1 /\ p.toks[1].t = "n" /\ p.toks[1].h = 0 /\ p.toks[1].n <= 255 THEN <<"proto", p.toks[1].n>>
                               ELSE IF Len(p.toks) = 1 /\ p.toks[1].t = "w" /\ Has(ProtoAny, p.toks[1].s) THEN <<"proto", NumOf(ProtoAny, p.toks[1].s)>> ELSE BadM
     [] p.kind = "Option" -> IF AllWords(p.toks) THEN <<"opt", Words(p.toks)>> ELSE BadM
     [] p.kind = "Wildcard" -> IF Len(p.toks) = 2 /\ p.toks[1].t = "ip" /\ p.toks[2].t = "ip" THEN <<"wild", Norm([base |-> p.toks[1].b, mask |-> p.toks[2].b])>> ELSE BadM
-    [] p.kind = "Address" -> LET a == ParseAddr(p.toks) IN IF a.k # "bad" /\ KwOK(e.plat, AddrKind(p.toks)) THEN <<"addr", AddrMeaning(a)>> ELSE BadM
-    [] p.kind = "AddressAg" -> LET a == ParseMember(e.plat, p.toks) IN IF a.k # "bad" THEN <<"member", SeqOf(p.toks), AddrMeaning(a)>> ELSE BadM
+    [] p.kind = "Address" -> LET a == ParseAddr(p.toks) IN IF a.k # "bad" /\ KwOK(plat, AddrKind(p.toks)) THEN <<"addr", AddrMeaning(a)>> ELSE BadM
+    [] p.kind = "AddressAg" -> LET a == ParseMember(plat, p.toks) IN IF a.k # "bad" THEN <<"member", SeqOf(p.toks), AddrMeaning(a)>> ELSE BadM
     [] p.kind = "Remark" -> RemarkM(p.toks)
-    [] p.kind = "Ace" -> AceM(e.plat, e.vmajor, p.toks)
-    [] p.kind = "Line" -> IF IsRemarkLine(p.toks) THEN RemarkM(p.toks) ELSE AceM(e.plat, e.vmajor, p.toks)
+    [] p.kind = "Ace" -> AceM(plat, e.vmajor, p.toks)
+    [] p.kind = "Line" -> IF IsRemarkLine(p.toks) THEN RemarkM(p.toks) ELSE AceM(plat, e.vmajor, p.toks)
     [] p.kind = "AclHeader" ->
          IF Len(p.toks) >= 3 /\ IsW(p.toks[1], "ip") /\ IsW(p.toks[2], "access-list")
-         THEN IF e.plat = "ios" /\ Len(p.toks) = 4 /\ p.toks[3].s \in {"extended", "standard"} THEN <<"aclhdr", p.toks[3].s, p.toks[4].s>>
-              ELSE IF e.plat = "nxos" /\ Len(p.toks) = 3 THEN <<"aclhdr", "extended", p.toks[3].s>> ELSE BadM
+         THEN IF plat # "nxos" /\ Len(p.toks) = 4 /\ p.toks[3].s \in {"extended", "standard"} THEN <<"aclhdr", p.toks[3].s, p.toks[4].s>>
+              ELSE IF plat = "nxos" /\ Len(p.toks) = 3 THEN <<"aclhdr", "extended", p.toks[3].s>> ELSE BadM
          ELSE BadM
     [] p.kind = "AgHeader" ->
-         IF e.plat = "ios" /\ Len(p.toks) = 3 /\ IsW(p.toks[1], "object-group") /\ IsW(p.toks[2], "network") THEN <<"aghdr", p.toks[3].s>>
-         ELSE IF e.plat = "nxos" /\ Len(p.toks) = 4 /\ IsW(p.toks[1], "object-group") /\ IsW(p.toks[2], "ip") /\ IsW(p.toks[3], "address") THEN <<"aghdr", p.toks[4].s>>
+         IF plat # "nxos" /\ Len(p.toks) = 3 /\ IsW(p.toks[1], "object-group") /\ IsW(p.toks[2], "network") THEN <<"aghdr", p.toks[3].s>>
+         ELSE IF plat = "nxos" /\ Len(p.toks) = 4 /\ IsW(p.toks[1], "object-group") /\ IsW(p.toks[2], "ip") /\ IsW(p.toks[3], "address") THEN <<"aghdr", p.toks[4].s>>
          ELSE BadM
     [] OTHER -> BadM
-MeaningOfText(e, parts) == [k \in 1..Len(parts) |-> PartM(e, parts[k])]
+PartM(e, p) == PartMP(e.plat, e, p)
+MeaningOfTextP(plat, e, parts) == [k \in 1..Len(parts) |-> PartMP(plat, e, parts[k])]
+MeaningOfText(e, parts) == MeaningOfTextP(e.plat, e, parts)
 Readable(m) == \A k \in 1..Len(m) : m[k] # BadM
 
 (* native spelling of a part for the platform (only where the class has platform-specific syntax) *)
-PartNative(e, p) ==
-  CASE p.kind = "Address" -> AddrNative(e.plat, AddrKind(p.toks)) /\ AddrKind(p.toks) # "bare"
-    [] p.kind \in {"Ace", "Line"} -> IsRemarkLine(p.toks) \/ NativeAce(e.plat, ParseAce(e.plat, e.vmajor, p.toks))
+PartNativeP(plat, e, p) ==
+  CASE p.kind = "Address" -> AddrNative(plat, AddrKind(p.toks)) /\ AddrKind(p.toks) # "bare"
+    [] p.kind \in {"Ace", "Line"} -> IsRemarkLine(p.toks) \/ NativeAce(plat, ParseAce(plat, e.vmajor, p.toks))
     [] OTHER -> TRUE
+PartNative(e, p) == PartNativeP(e.plat, e, p)
 
-Clauses(e) ==
+(* meaning with the member numbers of address groups removed (IOS groups carry none) *)
+Unnumbered(m) == [k \in 1..Len(m) |-> IF m[k][1] = "member" THEN <<"member", m[k][3]>> ELSE m[k]]
+OtherPlat(p) == IF p = "nxos" THEN "ios" ELSE "nxos"
+(* refusals of a conversion on its own (address_ag.py): a nested group member cannot go to NX-OS; a non-contiguous
+   wildcard or 0.0.0.0/0 member cannot go to IOS *)
+IsAgGroup(p) == p.kind = "AddressAg" /\ Len(StripSeq(p.toks)) = 2 /\ IsW(StripSeq(p.toks)[1], "group-object")
+NotForIos(e, p) == p.kind = "AddressAg" /\ LET a == ParseMember(e.plat, p.toks) IN a.k = "wild" /\ (~IsContig(a.w.mask) \/ a.w.mask = Ones(W))
+MultiPort(e, p) ==
+  \/ p.kind = "Port" /\ LET r == ParsePort(PortTable(e.plat, e.vmajor, e.proto), MaxEq(e.plat), p.toks) IN r.ok /\ r.pe.op \in {"eq", "neq"} /\ Len(r.pe.items) > 1
+  \/ p.kind = "Ace" /\ LET a == ParseAce(e.plat, e.vmajor, p.toks) IN
+        a.ok /\ ((a.sp.op \in {"eq", "neq"} /\ Len(a.sp.items) > 1) \/ (a.dp.op \in {"eq", "neq"} /\ Len(a.dp.items) > 1))
+(* ... and one object cannot become several: an entry / port expression listing several ports cannot go to NX-OS on its own *)
+ConvRefusable(e, to) == \E k \in 1..Len(e.inp) : \/ (to = "nxos" /\ (IsAgGroup(e.inp[k]) \/ MultiPort(e, e.inp[k])))
+                                                  \/ (to # "nxos" /\ NotForIos(e, e.inp[k]))
+
+(* C02 on single objects: obj.platform = other ; = original ; = other *)
+ConvClauses(e) ==
+  IF ~e.conv.done THEN <<>>
+  ELSE LET to == OtherPlat(e.plat)  mIn == MeaningOfText(e, e.inp) IN
+       IF e.conv.exc # ""
+       THEN Chk(ConvRefusable(e, to) /\ e.conv.exc = "ValueError", e, "C02.single-object-conversion-refused." \o e.cls)
+       ELSE LET m1 == MeaningOfTextP(to, e, e.conv.t1) IN
+            Chk(Readable(m1) /\ Unnumbered(m1) = Unnumbered(mIn), e, "C02.single-object-conversion-changed-meaning." \o e.cls)
+            \o Chk(\A k \in 1..Len(e.conv.t1) : PartNativeP(to, e, e.conv.t1[k]), e, "C02.single-object-conversion-not-native." \o e.cls)
+            \o Chk(e.conv.back_exc = "" /\ Readable(MeaningOfText(e, e.conv.t2)) /\ Unnumbered(MeaningOfText(e, e.conv.t2)) = Unnumbered(mIn), e,
+                   "C02.single-object-conversion-back-changed-meaning." \o e.cls)
+            \o Chk(~e.native \/ e.conv.there_again_same_text, e, "C02.there-back-there-text-differs." \o e.cls)
+            \o Chk(e.conv.same_id /\ e.conv.same_note, e, "C16.single-object-conversion-lost-identifier-or-note." \o e.cls)
+
+(* C16 on single objects: copy() and rebuilding the object from its exported data *)
+CopyClauses(e) ==
+  IF ~e.cp.done THEN <<>>
+  ELSE Chk(e.cp.exc = "", e, "C16.copy-raised." \o e.cls)
+       \o (IF e.cp.exc # "" THEN <<>> ELSE
+           Chk(~e.native \/ (e.cp.copy_same_text /\ e.cp.copy_same_data), e, "C16.copy-not-equal." \o e.cls)
+           \o Chk(~e.native \/ (e.cp.data_same_text /\ e.cp.data_same_data), e, "C16.rebuilt-from-data-not-equal." \o e.cls)
+           \o Chk(e.cp.copy_new_id, e, "C16.copy-shares-identifier." \o e.cls)
+           \o Chk(e.cp.shared_mutables = 0, e, "C16.copy-shares-mutable-state." \o e.cls)
+           \o Chk(e.cp.source_unchanged_after_mutating_copy, e, "C16.mutating-the-copy-changed-the-source." \o e.cls)
+           \o Chk(e.cp.copy_keeps_note, e, "C16.copy-lost-note." \o e.cls))
+
+Clauses0(e) ==
   LET mIn == MeaningOfText(e, e.inp) IN
   IF ~Readable(mIn) THEN Fail(e, "machinery.generated-text-not-in-grammar")
   ELSE IF e.exc # "" THEN Fail(e, "C06.valid-text-rejected." \o e.cls)
@@ -70,6 +114,7 @@ Clauses(e) ==
                 \o Chk(Readable(MeaningOfText(e, e.re.t)) /\ MeaningOfText(e, e.re.t) = mIn, e, "C06.reparsed-object-means-something-else." \o e.cls)
                 \o Chk(e.re2.exc = "" /\ e.re2.same_text /\ e.re2.same_data, e, "C06.not-stable-from-first-reparse." \o e.cls))
 
+Clauses(e) == Clauses0(e) \o (IF e.exc = "" /\ Readable(MeaningOfText(e, e.inp)) THEN ConvClauses(e) \o CopyClauses(e) ELSE <<>>)
 Report(cs) == IF cs = <<>> THEN TRUE ELSE PrintT(ToJson([verdicts |-> cs]))
 Init == l = 1
 Next == l <= Len(TraceLog) /\ Report(Clauses(TraceLog[l])) /\ l' = l + 1
